@@ -141,7 +141,8 @@ func (p *Program) genOnce(fn *ssa.Function, key string, opts GenOpts, pre map[st
 				err = fmt.Errorf("%s: %s", key, ee.msg)
 				return
 			}
-			panic(r)
+			// an engine limitation hit by this function's code: the unit cannot be decided (reported, never a crash)
+			err = fmt.Errorf("%s: the VC generator cannot translate this function: %v", key, r)
 		}
 	}()
 	fc := p.cs.Funcs[key]
